@@ -80,6 +80,7 @@ func cmdVerify(args []string) {
 	ms := fs.Int("ms", 10000, "per-check timeout in ms")
 	verbose := fs.Bool("v", false, "verbose")
 	model := fs.Bool("m", false, "print a model and the path of the first failing instance of each failed obligation")
+	gsel := fs.String("g", "", "print status and path of every instance of the obligations whose name contains this text")
 	fs.Parse(args)
 	t0 := time.Now()
 	w, err := loadWorld(*repo, *stubs)
@@ -103,6 +104,14 @@ func cmdVerify(args []string) {
 			fmt.Println("  ERROR:", e)
 		}
 		x.report(*verbose)
+		if *gsel != "" {
+			for _, g := range x.goals {
+				if strings.Contains(g.name, *gsel) {
+					pc := strings.ReplaceAll(pathComments(g), "\n", " | ")
+					fmt.Printf("  inst %-8s %s goal %d %s :: %s\n", g.status, g.name, g.id, g.script, pc)
+				}
+			}
+		}
 		if *model {
 			seen := map[string]bool{}
 			for _, g := range x.goals {
